@@ -12,7 +12,7 @@ Inductive root := RT | RS | RA.
 
 Inductive arg :=
 | ALit (v : val)                        (* literal (containers are rebuilt by arg_val) *)
-| AT (steps : list (string * arg))      (* nested T-expression, evaluated against the original target *)
+| AT (ops : list (string * arg))        (* nested T-expression as written (dunder, arg), evaluated against the original target *)
 | ASlice (a b c : option Z)
 | ACall (args : list arg)               (* positional arguments of a call *)
 | ANoArg.                               (* unary operators and wildcards record None *)
@@ -88,7 +88,7 @@ Definition getitem_val (cur : val) (a : earg) : res val :=
       if hashable k then
         match kv_lookup py_eqb k kvs with Some v => Ok v | None => Raise (simple_exn "KeyError") end
       else Raise (simple_exn "TypeError")
-  | VDict _ _ _, ESlice _ _ _ => Raise (simple_exn "TypeError")
+  | VDict _ _ _, ESlice _ _ _ => Raise (simple_exn "KeyError")   (* slices are hashable since 3.12 *)
   | VList _ xs, EVal k =>
       match k with
       | VInt _ | VBool _ => match py_int k with
@@ -301,7 +301,9 @@ Fixpoint map_res {A B} (f : A -> res B) (l : list A) : res (list B) :=
 Fixpoint arg_val (rec : evalfn) (target : val) (a : arg) : res earg :=
   match a with
   | ALit v => Ok (EVal (rebuild v))
-  | AT steps => do v <- rec target (flat RT steps); Ok (EVal v)
+  | AT ops => match record ops with
+              | Some cells => do v <- rec target cells; Ok (EVal v)
+              | None => Unmodelled "record" end
   | ASlice x y z => Ok (ESlice x y z)
   | ACall args =>
       do vs <- (fix go (l : list arg) : res (list val) :=
@@ -317,11 +319,13 @@ Definition zidx (i : Z) : nat := Z.to_nat i.
 Definition exc_caught (catches : list string) (cls : string) : bool :=
   existsb (String.eqb "Exception") catches || existsb (String.eqb cls) catches.
 
+Definition catches_of (code : string) : list string :=
+  match str_assoc code access_catches with Some l => l | None => [] end.
+
 Definition wrap_pae (code : string) (idx : Z) (r : res val) : res val :=
   match r with
   | Raise e =>
-      let catches := match str_assoc code access_catches with Some l => l | None => [] end in
-      if exc_caught catches (ecls e) then Raise (pae (ecls e) (zidx idx)) else Raise e
+      if exc_caught (catches_of code) (ecls e) then Raise (pae (ecls e) (zidx idx)) else Raise e
   | _ => r end.
 Definition wrap_pae_arith (idx : Z) (r : res val) : res val :=
   match r with
@@ -345,7 +349,7 @@ Fixpoint star_rest (rec : evalfn) (todo : list cell) (kids : list val) : res (li
 Definition step_op (rec : evalfn) (target : val) (cells : list cell) (i : Z) (code : string) (a : earg) (cur : val)
   : res (val + val) :=
   if String.eqb code "." then
-    match a with EVal n => do v <- wrap_pae "." (part_idx_dot i) (getattr_val cur n); Ok (inl v) | _ => Unmodelled "dot-arg" end
+    match a with EVal (VStr n) => do v <- wrap_pae "." (part_idx_dot i) (getattr_val cur (VStr n)); Ok (inl v) | _ => Unmodelled "arg-shape" end
   else if String.eqb code "[" then
     do v <- wrap_pae "[" (part_idx_idx i) (getitem_val cur a); Ok (inl v)
   else if String.eqb code "P" then
@@ -363,7 +367,7 @@ Definition step_op (rec : evalfn) (target : val) (cells : list cell) (i : Z) (co
   else if String.eqb code "(" then
     match a with
     | ECall vs => do v <- call_val cur vs; Ok (inl v)
-    | _ => Unmodelled "call-arg" end
+    | _ => Unmodelled "arg-shape" end
   else
     (* arithmetic: the generated arm table decides; an opcode without an arm falls through the
        if-chain and leaves cur unchanged — exactly what the Python code does *)
@@ -373,7 +377,7 @@ Definition step_op (rec : evalfn) (target : val) (cells : list cell) (i : Z) (co
         match binop_of_name name, unop_of_name name, a with
         | Some o, _, EVal y => do v <- wrap_pae_arith (part_idx_arith i) (apply_binop o cur y); Ok (inl v)
         | None, Some o, _ => do v <- wrap_pae_arith (part_idx_arith i) (apply_unop o cur); Ok (inl v)
-        | _, _, _ => Unmodelled "arith-arm" end
+        | _, _, _ => Unmodelled "arg-shape" end
     end.
 
 Fixpoint loop (n : nat) (rec : evalfn) (target : val) (cells : list cell) (i : Z) (cur : val) : res val :=
